@@ -87,9 +87,15 @@ class Flow(object):
         # type: () -> str
         return 'Flow({}, {})'.format(self.hint, self._names)
 
-    def add_name(self, name):
-        # type: (Name) -> None
+    def add_name(self, name, local=True):
+        # type: (Name, bool) -> None
         name.scope = self.scope
+        if not local:
+            # visible in this region only (a comprehension variable): it is not
+            # a local of the scope and must not hide outer names elsewhere in it
+            insert_loc(self._names, name)
+            return
+
         if name.name in self.scope.globals:
             name.scope = self.scope.top
             self.scope.top.add_global(name)
